@@ -149,6 +149,30 @@ def handover(cls):
             'P %s_handover_S %s | S:s1:1 | WAIT:s1 U:s1 | X:x3:1 U:x3 %s' % (cls, cls, fin(cls))]
 
 
+def crowd(cls):
+    """several grants held at the same time, reached without preemptions: threads wait (client side) for the guards of
+    the others to exist before they go on - shared holders pile up before an upgrade / an exclusive request / a second
+    SIX request is made, and leave only afterwards"""
+    out = []
+    f = fin(cls)
+    for n in (2, 3):
+        hs = ['S:s%d:1 WAIT:i1 U:s%d' % (10 - k, 10 - k) for k in range(n)]
+        w = ' '.join('WAIT:s%d' % (10 - k) for k in range(n))
+        out.append('P %s_crowd_up%d %s | %s SIX:i1:1 UP:i1:x2 U:x2 U:i1 | %s %s' % (cls, n, cls, w, ' | '.join(hs), f))
+        out.append('P %s_crowd_updn%d %s | %s SIX:i1:1 UP:i1:x2 DN:x2:i3 UP:i3:x4 U:x4 U:i3 U:x2 U:i1 | %s %s' % (cls, n, cls, w, ' | '.join(hs), f))
+        hs2 = ['S:s%d:1 WAIT:s%d U:s%d' % (10 - k, 10 - ((k + 1) % n), 10 - k) for k in range(n)]
+        out.append('P %s_crowd_x%d %s | %s X:x1:1 U:x1 | %s %s' % (cls, n, cls, w, ' | '.join(hs2), f))
+        out.append('P %s_crowd_six%d %s | %s SIX:i1:1 U:i1 | %s | %s SIX:i5:1 U:i5 %s' % (cls, n, cls, w, ' | '.join(hs2), w, f))
+    if cls == 'mcs':
+        return out      # the queue lock makes a shared request that arrives behind a granted SIX wait: the programs below would wait for ever
+    # shared requests admitted next to a SIX holder that then upgrades; a downgrade that lets shared requests in
+    out.append('P %s_crowd_sixs %s | SIX:i1:1 WAIT:s9 WAIT:s8 UP:i1:x2 U:x2 U:i1 | WAIT:i1 S:s9:1 WAIT:s8 U:s9 | WAIT:i1 S:s8:1 WAIT:s9 U:s8 %s'
+               % (cls, cls, f))
+    out.append('P %s_crowd_dn %s | X:x1:1 DN:x1:i2 WAIT:s9 WAIT:s8 UP:i2:x3 U:x3 U:i2 U:x1 | WAIT:i2 S:s9:1 WAIT:s8 U:s9 | WAIT:i2 S:s8:1 WAIT:s9 U:s8 %s'
+               % (cls, cls, f))
+    return out
+
+
 def twolocks(cls):
     return ['P %s_2locks %s | X:x1:1 S:s2:2 U:s2 U:x1 | S:s3:1 U:s3 X:x4:2 U:x4 || X:x11:1 U:x11 X:x12:2 U:x12' % (cls, cls)]
 
